@@ -20,7 +20,8 @@ CONTROL = ['Base Header Level', 'HTML Header Level', 'XHTML Header Level', 'LaTe
 NEUTRAL_KEYS = ['Title', 'Author', 'Date', 'Copyright', 'Keywords', 'Subtitle', 'Affiliation', 'Revision', 'Custom Thing', 'X-Y.z', 'CSS', 'HTML Header', 'XHTML Header',
                 'LaTeX Leader', 'LaTeX Begin', 'LaTeX Footer', 'LaTeX Config', 'LaTeX Title', 'LaTeX Author', 'ODF Header', 'Email', 'Web', 'Phone', 'My Own Key 7']
 NEUTRAL_VALUES = ['Plain', 'Two words', 'A & B', 'x < y', '"quoted"', "it's", '100% sure', 'under_score', 'a#b', 'dollar $5', 'back\\slash', '{braces}', 'é ü 中', 'http://e.x/?a=1&b=2',
-                  '*star*', '`tick`', 'jo@example.org', 'Jo <jo@example.org>', 'mailto:jo@x.org', 'tilde~ caret^', 'style.css', '<meta name="x" content="y">', 'article', 'm%d sentinel']
+                  '*star*', '`tick`', 'jo@example.org', 'Jo <jo@example.org>', 'mailto:jo@x.org', 'tilde~ caret^', 'style.css', '<meta name="x" content="y">', 'article', 'm%d sentinel',
+                  'Ann Lee; Bob Ray', 'One, Two and Three', 'a; b; c', 'and \\and more', 'semi;colon m%d']
 
 
 def strip_meta(doc):
@@ -114,19 +115,25 @@ def check_case(r, s, rng, fmt):
     base = rng.choice([D.EXT_CLI, D.EXT_CLI, D.EXT_CLI & ~E['SMART'], D.EXT_CLI | E['NO_LABELS'], D.EXT_CLI & ~E['NOTES']])
     c = Ctx(r, s, fmt, base)
     body = gen_body(rng)
-    kind = rng.choice(['none', 'control', 'neutral', 'neutral', 'mixed', 'yaml'])
+    kind = rng.choice(['none', 'control', 'neutral', 'neutral', 'mixed', 'yaml', 'yaml-control', 'yaml-mixed'])
     if kind == 'none':
         pairs = []
-    elif kind == 'control':
+    elif kind in ('control', 'yaml-control'):
         pairs = control_pairs(rng, fmt)
-    elif kind == 'mixed':
+    elif kind in ('mixed', 'yaml-mixed'):
         pairs = neutral_pairs(rng, rng.randint(1, 3)) + control_pairs(rng, fmt)
         rng.shuffle(pairs)
     else:
         pairs = neutral_pairs(rng, rng.randint(1, 5))
     mb = meta_block(pairs) if pairs else b''
-    if kind == 'yaml' and pairs:
+    if kind.startswith('yaml') and pairs:
         mb = b'---\n' + mb[:-1] + b'---\n\n'
+    uses_vars = False
+    if pairs and rng.random() < 0.2:
+        uses_vars = True
+        # values substituted as variables: the snippet and the complete document must substitute the same text (the header routines read the same values)
+        ks = [k for k, _ in pairs if k not in CONTROL][:3] + ['nokey']
+        body = body.rstrip(b'\n') + b'\n\nVariables: ' + b' / '.join(b'[%' + k.lower().encode() + b']' for k in ks) + b' end.\n'
     src = mb + body
     has_ctl = any(k in CONTROL for k, _ in pairs)
     has_neutral = any(k not in CONTROL for k, _ in pairs)
@@ -163,6 +170,11 @@ def check_case(r, s, rng, fmt):
             if (Dd == F) != want_complete:
                 bad('default-mode-wrong', 'default output is %s but the metadata (%s) calls for %s' % ('complete' if Dd == F else 'snippet', [k for k, _ in pairs], 'complete' if want_complete else 'snippet'), '')
     r.stats['relation2_checked'] += 1
+    if uses_vars:
+        r.stats['documents_with_variable_substitution'] += 1
+        if len(body) > 40:
+            r.distinct.add(core.h64(src, fmt, base))
+        return          # the body reads the metadata values here (a documented effect): relations 3-7 compare bodies across different metadata
     # (3) neutral keys never change the snippet
     if not has_ctl:
         S0 = c.out(body, E['SNIPPET'])
@@ -181,7 +193,7 @@ def check_case(r, s, rng, fmt):
             bad('neutral-metadata-changes-body', 'with the same control keys %s, different neutral keys changed the snippet rendering' % [k for k, _ in ctl], first_diff(S1, S2 if S1 != S2 else S))
         r.stats['relation3_checked'] += 1
     # (4) key order
-    if len(pairs) > 1 and kind != 'yaml':
+    if len(pairs) > 1 and not kind.startswith('yaml'):
         p2 = list(pairs)
         rng.shuffle(p2)
         D2 = c.out(meta_block(p2) + body, 0)
@@ -200,7 +212,7 @@ def check_case(r, s, rng, fmt):
         r.stats['relation5_checked'] += 1
     # (6) the metadata block is a block of its own: it ends at the first blank line, however that line is spelled, and a body that
     #     starts with a "Word: text" line stays body
-    if pairs and kind != 'yaml' and rng.random() < 0.4:
+    if pairs and not kind.startswith('yaml') and rng.random() < 0.4:
         lead = rng.choice([b'', b'', b'Note: first body line w9001 w9002\n\n', b'Remark: w9003\nsecond line w9004\n\n'])
         b2 = lead + body
         ref_s, ref_f = c.out(mb + b2, E['SNIPPET']), c.out(mb + b2, E['COMPLETE'])
